@@ -81,4 +81,30 @@ for klen in sizes:
             R.fail("C16/parallel-vs-sequential", "C16:parallel", f"klen={klen} workers={workers}: parallel search found {len(par)} LCDs, sequential {len(seq)}; missing {sorted(set(seq) - set(par))[:5]}", dict(klen=klen, workers=workers))
         elif par_order != seq_order:
             R.fail("C16/result-order", "C16:order", f"klen={klen} workers={workers}: order of the reported dependencies differs from the sequential search", dict(klen=klen, workers=workers))
+# (3) the same command in fresh processes with different string-hash seeds: text report and --yaml-out identical apart from
+# the timestamp (iteration orders of sets of strings differ between processes)
+import subprocess, tempfile, re as _re
+from common import REPO as _REPO
+for isa_, arch_, code_ in (("x86", "zen2", "foobar %rax, %rbx\nvmovapd (%rax), %ymm0\naddq $1, %rax\nvfmadd231pd 8(%rax), %ymm1, %ymm2\n"),
+                           ("aarch64", "a64fx", "frobnicate x3, x4\nldr q1, [x2, #16]!\nfmla v0.2d, v1.2d, v2.2d\nsubs x1, x1, #1\n")):
+    with tempfile.NamedTemporaryFile("w", suffix=".s", delete=False) as f_:
+        f_.write(code_)
+    outs = []
+    for seed in ("1", "2", "3"):
+        y = f_.name + "." + seed + ".yml"
+        r = subprocess.run([sys.executable, "-m", "osaca.osaca", "--arch", arch_, "--yaml-out", y, f_.name], capture_output=True, text=True,
+                           env=dict(os.environ, PYTHONHASHSEED=seed), cwd=_REPO)
+        txt = _re.sub(r"\d{4}-\d{2}-\d{2}[ T]\d{2}:\d{2}:\d{2}(\.\d+)?", "<time>", r.stdout)
+        yml = _re.sub(r"\d{4}-\d{2}-\d{2}[ T]*\n?\s*\d{2}:\d{2}:\d{2}(\.\d+)?", "<time>", open(y).read()) if os.path.exists(y) else "missing: " + r.stderr[-200:]
+        outs.append((txt, yml))
+        if os.path.exists(y):
+            os.unlink(y)
+    os.unlink(f_.name)
+    R.case(("hash-seeds", arch_), sample=dict(arch=arch_, seeds=3))
+    if len({o[0] for o in outs}) != 1:
+        R.fail("C16/repeated-runs/text", "C16:hashseed-text", f"{arch_}: the text report differs between fresh processes (PYTHONHASHSEED 1/2/3)")
+    if len({o[1] for o in outs}) != 1:
+        import difflib
+        d_ = [l for l in difflib.unified_diff(outs[0][1].split("\n"), outs[1][1].split("\n"), lineterm="", n=0)][2:6]
+        R.fail("C16/repeated-runs/yaml-out", "C16:hashseed-yaml", f"{arch_}: --yaml-out differs between fresh processes (PYTHONHASHSEED): {d_}")
 R.done()
